@@ -21,6 +21,9 @@ import (
 	golog "github.com/fclairamb/go-log"
 	"github.com/pojntfx/stfs/pkg/cache"
 	"github.com/pojntfx/stfs/pkg/config"
+	"github.com/pojntfx/stfs/pkg/encryption"
+	"github.com/pojntfx/stfs/pkg/recovery"
+	"github.com/pojntfx/stfs/pkg/signature"
 	"github.com/pojntfx/stfs/pkg/fs"
 	"github.com/pojntfx/stfs/pkg/mtio"
 	"github.com/pojntfx/stfs/pkg/operations"
@@ -397,4 +400,27 @@ func ItemLines(items []TapeItem, plain func(*tar.Header) *tar.Header) []string {
 		}
 	}
 	return out
+}
+
+// Replay runs recovery.Index over the whole tape into the instance's index, as
+// `stfs recovery index` does (overwrite=false by default).
+func Replay(e *Env, overwrite bool) error {
+	// barrier: a streaming read's goroutine releases the drive a moment after its reader saw
+	// EOF; Restore takes the same operation lock first, so returning from it means that is over
+	_ = e.ReadOps.Restore(nil, nil, "/\x01 no such entry", "", true)
+	reader, err := e.TM.GetReader()
+	if err != nil {
+		return err
+	}
+	defer e.TM.Close()
+	pc := config.PipeConfig{RecordSize: e.Cfg.RS, Compression: e.Cfg.Compression, Encryption: e.Cfg.Encryption, Signature: e.Cfg.Signature}
+	return recovery.Index(reader, mtio.MagneticTapeIO{}, config.MetadataConfig{Metadata: e.MP}, pc, e.Cfg.CryptoRead,
+		0, 0, overwrite, false, 0,
+		func(hdr *tar.Header, i int) error {
+			return encryption.DecryptHeader(hdr, e.Cfg.Encryption, e.Cfg.CryptoRead.Identity)
+		},
+		func(hdr *tar.Header, isRegular bool) error {
+			return signature.VerifyHeader(hdr, isRegular, e.Cfg.Signature, e.Cfg.CryptoRead.Recipient)
+		},
+		func(hdr *config.Header) {})
 }
